@@ -1,3 +1,4 @@
+pub mod c02;
 pub mod c09;
 pub mod c16;
 pub mod c17;
